@@ -17,7 +17,7 @@ pub const FIELD_IDENTS: [&str; 8] = ["a", "id", "user_id", "user_id2", "x1_y", "
 pub const VARIANT_IDENTS: [&str; 6] = ["A", "Done", "InProgress", "HTTPServer", "V2Beta", "Io"];
 
 /// attribute sets for a designated struct field: (label, attribute lines, hidden by plain skip?)
-pub const FIELD_ATTRS: [(&str, &[&str], bool); 16] = [
+pub const FIELD_ATTRS: [(&str, &[&str], bool); 19] = [
     ("none", &[], false),
     ("rename-kebab", &["#[serde(rename = \"x-y\")]"], false),
     ("rename-Z", &["#[serde(rename = \"Z\")]"], false),
@@ -34,15 +34,20 @@ pub const FIELD_ATTRS: [(&str, &[&str], bool); 16] = [
     ("default+rename", &["#[serde(default, rename = \"c\")]"], false),
     ("alias-rename", &["#[serde(alias = \"rename\")]"], false),
     ("skip_serializing_if+rename", &["#[serde(skip_serializing_if = \"Option::is_none\", rename = \"d\")]"], false),
+    ("rename-split", &["#[serde(rename(serialize = \"ser_name\", deserialize = \"de_name\"))]"], false),
+    ("rename-split-reversed", &["#[serde(rename(deserialize = \"de_name\", serialize = \"ser-name\"))]"], false),
+    ("rename-serialize-only", &["#[serde(rename(serialize = \"only_ser\"))]"], false),
 ];
 
-pub const VARIANT_ATTRS: [(&str, &[&str]); 6] = [
+pub const VARIANT_ATTRS: [(&str, &[&str]); 8] = [
     ("none", &[]),
     ("rename-kebab", &["#[serde(rename = \"x-y\")]"]),
     ("rename-Z", &["#[serde(rename = \"Z\")]"]),
     ("alias-skip", &["#[serde(alias = \"skip\")]"]),
     ("rename-to-rename_all", &["#[serde(rename = \"rename_all\")]"]),
     ("alias-rename", &["#[serde(alias = \"rename\")]"]),
+    ("rename-split", &["#[serde(rename(serialize = \"ser_name\", deserialize = \"de_name\"))]"]),
+    ("rename-split-reversed", &["#[serde(rename(deserialize = \"de_name\", serialize = \"ser-name\"))]"]),
 ];
 
 #[derive(Debug, Clone)]
@@ -59,13 +64,44 @@ pub struct ItemSpec {
 pub fn conventions() -> Vec<Option<&'static str>> {
     let mut v = vec![None];
     v.extend(naming::CONVENTIONS.iter().map(|c| Some(*c)));
+    // split forms: serde serialises with the `serialize` convention whatever the order
+    v.push(Some("SPLIT:serialize = \"kebab-case\", deserialize = \"snake_case\""));
+    v.push(Some("SPLIT:deserialize = \"SCREAMING_SNAKE_CASE\", serialize = \"camelCase\""));
+    // other container attributes whose text contains `rename_all`: they do not rename the
+    // members in the alphabet (unit variants, named struct fields)
+    v.push(Some("ENUM:#[serde(rename_all_fields = \"SCREAMING_SNAKE_CASE\")]"));
+    v.push(Some("ENUM:#[serde(rename_all = \"snake_case\")]\n#[serde(rename_all_fields = \"camelCase\")]"));
+    v.push(Some("RAW:#[serde(deny_unknown_fields, rename = \"rename_all\")]\n#[serde(rename_all = \"kebab-case\")]"));
+    v.push(Some("RAW:#[serde(rename_all = \"UPPERCASE\")]\n#[serde(deny_unknown_fields)]"));
     v
+}
+
+pub fn enum_only(conv: usize) -> bool {
+    conventions()[conv].is_some_and(|c| c.starts_with("ENUM:"))
+}
+
+/// the container attribute line for a convention entry
+pub fn container_attr(c: &str) -> String {
+    if let Some(inner) = c.strip_prefix("SPLIT:") {
+        format!("#[serde(rename_all({}))]\n", inner)
+    } else if let Some(raw) = c.strip_prefix("ENUM:").or_else(|| c.strip_prefix("RAW:")) {
+        format!("{}\n", raw)
+    } else {
+        format!("#[serde(rename_all = \"{}\")]\n", c)
+    }
 }
 
 pub fn items() -> Vec<ItemSpec> {
     let mut v = vec![];
     for conv in 0..conventions().len() {
         for attr in 0..FIELD_ATTRS.len() {
+            if enum_only(conv) {
+                break;
+            }
+            // the extra container settings carry a reduced attribute alphabet
+            if conv > naming::CONVENTIONS.len() && ![0, 1, 3, 7, 16, 17].contains(&attr) {
+                continue;
+            }
             // the designated field rotates so that over the product every identifier carries every
             // attribute set under some convention, and every (convention, attribute) pair is present
             for rot in 0..(if [1, 3, 7].contains(&attr) { 2 } else { 1 }) {
@@ -74,6 +110,9 @@ pub fn items() -> Vec<ItemSpec> {
             }
         }
         for attr in 0..VARIANT_ATTRS.len() {
+            if conv > naming::CONVENTIONS.len() && ![0, 1, 4, 6, 7].contains(&attr) {
+                continue;
+            }
             for rot in 0..(if attr == 1 { 2 } else { 1 }) {
                 let designated = (attr + conv + rot * 2) % VARIANT_IDENTS.len();
                 v.push(ItemSpec { name: format!("E{}A{}R{}", conv, attr, rot), is_enum: true, conv, attr, designated });
@@ -87,7 +126,7 @@ pub fn items() -> Vec<ItemSpec> {
 pub fn item_source(it: &ItemSpec) -> String {
     let mut s = String::from("#[derive(Debug, Clone, Serialize, Deserialize)]\n");
     if let Some(c) = conventions()[it.conv] {
-        s.push_str(&format!("#[serde(rename_all = \"{}\")]\n", c));
+        s.push_str(&container_attr(c));
     }
     if it.is_enum {
         s.push_str(&format!("pub enum {} {{\n", it.name));
@@ -366,7 +405,7 @@ pub fn run(tier: Tier) -> CheckResult {
     res.coverage.set("exhaustive", true);
     res.coverage.set("serde_oracle_items", table.len() as u64);
     res.coverage.set("samples", json!([item_source(&all[5]), item_source(&all[all.len() - 3])]));
-    res.coverage.set("rule", "items: for each of the 9 container settings (none + 8 rename_all conventions) structs with 8 field identifiers and enums with 6 variant identifiers, one designated member carrying each of 16 (fields) / 6 (variants) attribute sets (rename values, skip, skip_serializing_if, default, alias=\"skip\", rename=\"rename_all\", combined and separate attributes in both orders, skip_serializing, skip_deserializing); oracle for names = REAL serde: the same source text is compiled with serde_derive in the ttv-fixtures crate, serialised and read back; oracle for presence = the property's rule (absent iff plain skip); compared with the keys / literals parsed from the generated declaration in both modes. distinct_nontrivial = distinct (convention, kind, identifier, attribute set, mode) coordinates covered.");
+    res.coverage.set("rule", "items: for each of the 15 container settings (none + 8 rename_all conventions + rename_all(serialize, deserialize) in both orders + rename_all_fields alone and beside rename_all [enums] + rename_all split over two attributes with deny_unknown_fields / a container rename whose value is \"rename_all\") structs with 8 field identifiers and enums with 6 variant identifiers, one designated member carrying each of 19 (fields) / 8 (variants) attribute sets (rename values, rename(serialize, deserialize) in both orders and serialize-only, skip, skip_serializing_if, default, alias=\"skip\", rename=\"rename_all\", combined and separate attributes in both orders, skip_serializing, skip_deserializing); oracle for names = REAL serde: the same source text is compiled with serde_derive in the ttv-fixtures crate, serialised and read back; oracle for presence = the property's rule (absent iff plain skip); compared with the keys / literals parsed from the generated declaration in both modes. distinct_nontrivial = distinct (convention, kind, identifier, attribute set, mode) coordinates covered.");
     res.assumptions = vec!["skip on enum variants is not in the alphabet (the statement defines absence for fields only)".into()];
     res
 }
